@@ -219,6 +219,10 @@ class Contract:
   def havoc(self, b, args):
     """Applies the frame when the contract is used at a call site."""
 
+  def drive(self, interp, pyf, args, env, check):
+    """Runs the function under contract; overridden for context managers."""
+    return interp.call_function(pyf, [], dict(args))
+
   # -- derived -----------------------------------------------------------------
   @classmethod
   def short(cls):
@@ -255,10 +259,21 @@ def clause_closure(fn):
   return f, (fn.__self__ if isinstance(fn, types.MethodType) else None)
 
 
+def direct(fn):
+  """Marks a clause that builds its SMT term itself: fn(self, interp, env)."""
+  fn._pyvc_direct = True
+  return fn
+
+
 def call_clause(interp, fn, kwargs):
   """Interprets a clause symbolically (spec mode) with keyword arguments
   restricted to the clause's own parameters."""
   f, self_ = clause_closure(fn)
+  if getattr(f, '_pyvc_direct', False):
+    r = fn(interp, _rename_self(kwargs))
+    if isinstance(r, (z3.BoolRef,)):
+      return SBool(r)
+    return r
   sig = inspect.signature(f)
   params = list(sig.parameters)
   call_kw = {}
@@ -475,11 +490,21 @@ def run_contract(contract, xcheck=True, goal_timeout_ms=8000):
     old = call_clause(interp, contract.old, env) if hasattr(contract, 'old') else None
     env['old'] = old
     outcome = None
+
+    def check(kind, cname, fn, env_=None):
+      if not callable(fn):
+        z = fn.z if isinstance(fn, SBool) else fn
+        return ex.check_goal(path, contract.oblig(kind, cname), z)
+      r = call_clause(interp, fn, env_)
+      return ex.check_goal(path, contract.oblig(kind, cname), interp.truth_z(r))
     try:
-      result = interp.call_function(pyf, [], dict(args))
+      result = contract.drive(interp, pyf, args, env, check)
       outcome = ('return', result)
     except I.PyRaise as pr:
       outcome = ('raise', pr.exc)
+    except I.PathEnd:
+      rep.covered += 1
+      raise
     # coverage: is the path condition satisfiable?
     sat = path.solver.check()
     if sat == z3.unsat:
@@ -635,3 +660,51 @@ def _short(v):
   if isinstance(v, type):
     return v.__name__
   return repr(v)[:60]
+
+
+class CMContract(Contract):
+  """Contract of a @contextlib.contextmanager function (or of a function that
+  returns one).  The real generator body is executed up to its yield (enter),
+  `inside_*` clauses are checked, the block is abstracted by the induction
+  hypothesis (it leaves the manager's own state as it found it and either
+  returns or raises), then the body is resumed (exit) and `exit_*` clauses are
+  checked on both the normal and the exceptional exit."""
+
+  block_exception = RuntimeError
+
+  def block(self, interp, env):
+    """Hook: effects of the block permitted by the induction hypothesis."""
+
+  def make_cm(self, interp, pyf, args):
+    if I._is_generator_cm(self.raw_target()):
+      return I.CMInstance(interp, pyf, [], dict(args))
+    r = interp.call_function(pyf, [], dict(args))
+    return r
+
+  def raw_target(self):
+    mod, qn = self.target.split(':')
+    obj, _ = frontend.resolve(mod, qn)
+    return obj
+
+  def drive(self, interp, pyf, args, env, check):
+    cm = self.make_cm(interp, pyf, args)
+    entered, exit_fn = interp.enter_cm(cm, None)
+    env['entered'] = entered
+    for cname, fn in self.clauses('inside_'):
+      check('INSIDE', cname, fn, env)
+    self.block(interp, env)
+    raises = interp.path.decide(2, 'block-raises') == 1
+    if raises:
+      exc = ExcVal(self.block_exception, ('block',))
+      suppressed = exit_fn(exc)
+      env['exit_kind'] = 'exception'
+      for cname, fn in self.clauses('exit_'):
+        check('EXIT', cname + '/exception', fn, env)
+      if suppressed:
+        check('EXIT', 'does-not-swallow-exception', False)
+      return None
+    exit_fn(None)
+    env['exit_kind'] = 'normal'
+    for cname, fn in self.clauses('exit_'):
+      check('EXIT', cname + '/normal', fn, env)
+    return None
